@@ -19,6 +19,7 @@ PEARSON_SHA256_16 = None
 
 
 def run(ctx):
+    integrity(ctx, ['crysp/bits.py', 'crysp/nilsimsa.py', 'crysp/tlsh.py'])
     ctx.rule('C19-R4 constants')
 
     def consts():
